@@ -35,7 +35,7 @@ TrInit == IsEvent("Init") /\ LET e == Trace[l] IN
   /\ whash' = IF whash = "" THEN e.whash ELSE whash
   /\ Report("C08.WorldAgrees", whash = "" \/ e.whash = whash)
 
-TrBlock == IsEvent("Block") /\ LET e == Trace[l]  txs == TplSeq(e.args.txs) IN
+TrBlock == IsEvent("Block") /\ LET e == Trace[l]  txs == TplSeq(e.args.txs) \o e.args.hostile IN
   /\ height' = e.height /\ txlog' = Append(txlog, txs) /\ queued' = StageAfter(queued, txs)
   /\ UNCHANGED <<gate, halted, nodeVars, whash, hres, hh>> /\ last' = Rec("Block", txs)
   /\ Report("C08.TwinsEqual", e.dref = e.dpert)
@@ -62,9 +62,9 @@ TrUnsetEnv == IsEvent("UnsetEnv") /\ LET e == Trace[l] IN
 TrPrepare == IsEvent("Prepare") /\ LET e == Trace[l]  log == PrepLog(e.args.stage, e.args.hclass) IN
   /\ Fresh /\ height' = e.height /\ txlog' = log
   /\ last' = Rec("Block", <<>>) /\ hres' = "none" /\ hh' = 0
-  /\ whash' = IF whash = "" THEN e.whash ELSE whash
+  /\ whash' = IF whash = "" /\ e.args.world = "std" THEN e.whash ELSE whash
   /\ Report("C09.NoAbort", e.res = "ok")
-  /\ Conf("Prepare", (e.res = "ok" => e.height = HeightOf(e.args.hclass) - 1) /\ (whash = "" \/ e.whash = whash))
+  /\ Conf("Prepare", (e.res = "ok" => e.height = HeightOf(e.args.hclass) - 1) /\ (e.args.world # "std" \/ whash = "" \/ e.whash = whash))
 
 TrHostile == IsEvent("Hostile") /\ LET e == Trace[l]  entry == <<e.args.kind, e.args.param, e.args.class>> IN
   /\ height' = IF e.res \in {"accepted", "rejected"} THEN e.height ELSE height
